@@ -36,6 +36,36 @@ CHECKS = {
         text="TLC checks, for every legal sub-rectangle, window mask and quarter-cell position of the valid/clipped region, that the local index arithmetic denotes the declarative corners, stays inside the loaded arrays, masks exactly the land faces, and that the weights are convex and exact on linear fields; generated grids (land, variable bathymetry, 2-3 levels, sub-rectangles, packed/float) with node values that identify every index and weight are run through the real Grid and Forcing and every probe value (velocity at three fractional times, variables, scalar) is validated by TLC with integer equality.",
         note="Lattice probes only (quarter cells; level gaps 20/40 m); at exact cell edges either neighbouring own cell is accepted. Off-lattice numerics are not examined (DESIGN 7).",
         design="6 C02"),
+    "C19": dict(
+        level="model_checking",
+        technique="TLA+ trace specification LadimTrace (composed protocol timer->release->force->output?->move->ibm, snapshot identity, close once) validated by TLC against complete ladim.main runs with all eight modules replaced by recording plug-ins given by file path",
+        text="Every recorded end-to-end execution must be a behaviour of the composed specification: events in protocol order and multiplicity, forcing evaluated on exactly the particle set after release (incl. new ones) with variables equal to the velocity at the present positions, the record taken from that state, the IBM seeing the moved state once per step (ageing by one, scripted kills/freezes effective from the next record), every module's close called exactly once after the last step; the plug-ins are loaded by path, so a run that ignored them would produce no events.",
+        note="Random scenario space (grids with land, irregular multi-file forcing, fwd/rev, discrete/continuous release, EF/RK2/RK4, sparse/dense, split files). Trusted: LADiM's module loader itself delivers the plug-ins (that is part of the property), TLC.",
+        design="6 C19"),
+    "C07": dict(
+        level="model_checking",
+        technique="TLA+ spec OutFile (declarative schedule + operational cursor arithmetic with predicted record count) model-checked with TLC (MC_OutFile); exhaustive trace validation of ladim.main over (run length, period, split, layout, pvars, direction) with LadimTrace",
+        text="TLC checks for every run length, period, split and cold/warm start in the bound that the cursor arithmetic never writes into a closed file, writes exactly the scheduled records, fills files with numrec records (last fewer), writes particle variables to every file and closes it; every (nsteps, ops, numrec) combination of the bound is run through ladim.main and the normal exit, number of records, file sizes, numbering, and closing are validated by TLC against the history of output events.",
+        note="Cold start in trace validation (warm start: model-checked here, trace-validated under C08).",
+        design="6 C07"),
+    "C06": dict(
+        level="model_checking",
+        technique="LadimTrace: output files decoded with netCDF4 are validated by TLC against the history of state snapshots recorded when output.update() was called; OutFile model-checked (MC_OutFile)",
+        text="For every recorded run TLC requires: records retrievable by the cumulative particle_count rule (counts sum to the instance dimension), record k = the living particles of the snapshot at the k-th due output call with exactly the state's values (pid, X, Y, Z, age, farm), time coordinate = model time with the stated reference, particle variables at index pid for every particle released up to the file's last record, dense layout decoded at [time, pid].",
+        note="Two thirds of the scenarios are directed (2-5 scripted deaths/freezes, particle variables). Values compared exactly (f8/i4 output).",
+        design="6 C06"),
+    "C09": dict(
+        level="model_checking",
+        technique="LadimTrace move-outcome clauses (kill / inactive / land-cancel / moved with interval semantics) evaluated by TLC on every tracker step of directed coast scenarios, with vacuity counters per outcome",
+        text="For every living particle of every recorded tracker step TLC recomputes the candidate position from the velocities the tracker was given (scheme tableau) and requires the logged outcome to be one of: killed (candidate outside the valid region; dead and inactive, not moved), inactive (not moved), cancelled (candidate on land; not moved), moved; living particles are in the valid region, in a sea cell, finite; no dead particle is alive again in any later snapshot or record.",
+        note="Interval semantics within 4/65536 cell of the margin or of a cell edge. Velocity correctness is C02/C03.",
+        design="6 C09"),
+    "C01": dict(
+        level="model_checking",
+        technique="Tableau.tla order conditions model-checked (MC_Tableau); LadimTrace stage-protocol and displacement clauses validated by TLC on recorded velocity requests of the real tracker",
+        text="TLC proves the order conditions (1, 2, 4) of the tableaux the trace specification uses; for every recorded tracker step the scheme's stage evaluations must occur in order among the recorded velocity requests - right fractional times, stage positions X + c_k dt/dx U_{k-1} (clipped) derived from the previous stage's logged result - and moved particles must land at X + dt/dx sum b_k U_k (dy for Y).",
+        note="Sheared time-dependent fields, dx/dy in {128, 256} independently. The limit statement (convergence order) follows from tableau + conformance; a numerical slope measurement is not part of the verdict yet.",
+        design="6 C01"),
 }
 
 NOT_YET = {}
